@@ -42,5 +42,6 @@ PROPS = {
     "C16": dict(tests=[T("TestVerifC16", 300, 4000, shrinktime="0s", gomaxprocs=[16, 4, 2, 16]), T("TestVerifC16Seq", 3000, 40000)]),
     "C17": dict(tests=[T("TestVerifC17", 20000, 150000), F("FuzzVerifC17")]),
     "C19": dict(tests=[T("TestVerifC19", 250, 3000, race=True, shrinktime="0s", gomaxprocs=[16, 4, 8, 16], q_timeout=400)]),
-    "C20": dict(tests=[T("TestVerifC20", 400, 6000, shrinktime="0s", gomaxprocs=[16, 4, 2, 16])]),
+    "C20": dict(tests=[T("TestVerifC20", 400, 6000, shrinktime="0s", gomaxprocs=[16, 4, 2, 16]),
+                       T("TestVerifC20Pipeline", 1500, 20000)]),
 }
